@@ -23,6 +23,11 @@ pub static C08: C08Prop = C08Prop;
 const PARTS: [&str; 14] = ["0.1", "0.25", "0.5", "0.75", "1", "1.25", "1.5", "2", "2.5", "3", "3.75", "5", "6.5", "8"];
 
 fn gen_operand(c: &mut dyn Choices) -> E {
+    if c.below(12) == 11 {
+        // a real operand that is a truncated spelling of a special constant
+        let k = near_constants();
+        return E::Lit(k[c.below(k.len() as u32) as usize].to_string());
+    }
     let a = PARTS[c.below(PARTS.len() as u32) as usize];
     let b = PARTS[c.below(PARTS.len() as u32) as usize];
     let re = E::Lit(a.to_string());
